@@ -27,6 +27,7 @@ FLAVOURS = {
     "asan": ["-fsanitize=address,undefined", "-fsanitize=float-cast-overflow",
              "-fno-sanitize-recover=all", "-fno-sanitize=vptr"],
     "tsan": ["-fsanitize=thread"],
+    "asanonly": ["-fsanitize=address"],
     "plain": [],
 }
 
